@@ -194,17 +194,30 @@ pub fn generate(seed: u64, n: usize, _thorough: bool, _corpus: Option<&str>) -> 
         out.extend(history_cases(&mut r));
         out.push(pipe_case(&mut r));
         if i % 2 == 0 { out.push(data_doors(&mut r)); }
-        if i % 4 == 1 { out.push(gap_doors(&mut r)); }
     }
+    // fixed-size blocks with their OWN generators (independent of how much randomness the streams above consume)
+    let mut rg = Rng::new(seed ^ 0x6a9d_0055_u64).fork();
+    for k in 0..(if n >= 2000 { n / 16 } else { GAP_BLOCK }) { out.push(gap_doors(&mut rg, k)); }
+    // scripted linear histories: the call patterns whose ORDER matters, every run
+    let mut rh = Rng::new(seed ^ 0x5c217_7ed_u64).fork();
+    for k in 0..(if n >= 2000 { n / 12 } else { 36 }) { out.extend(history_cases_with(&mut rh, Some(k))); }
+    // the TRUTH TABLES of every connective through the method / operator forms, twice (the receiver form - bare handle or
+    // expression - is drawn per probe): 12 connective shapes x 8 value pairs x 3
+    let mut rt = Rng::new(seed ^ 0x7ab1e_u64).fork();
+    for _rep in 0..3 { for kind in 0..12 { for pq in [[0.0, 1.0], [1.0, 0.0], [0.0, 0.0], [1.0, 1.0], [0.0, 2.0], [-1.0, 0.0], [0.0, -1.0], [3.0, 0.0]] {
+        if let Some(c) = eval_probe_with(&mut rt, Some((kind, pq))) { out.push(c); } } } }
     out
 }
 
 /// `BuilderSolution::eval` at a CHOSEN point: variables are pinned by `v = c` rows, then an arbitrary
 /// expression is evaluated at the solution and compared bit-exactly with the Lean `evalExpr`.
-fn eval_probe(r: &mut Rng) -> Option<Case> {
+fn eval_probe(r: &mut Rng) -> Option<Case> { eval_probe_with(r, None) }
+
+/// `fixed = Some((kind, [p, q]))`: the connective `kind` applied to the handles of `p` and `q` at exactly these values
+fn eval_probe_with(r: &mut Rng, fixed: Option<(usize, [f64; 2])>) -> Option<Case> {
     let names: Vec<String> = ["p", "q", "s"].iter().map(|x| x.to_string()).collect();
     let ds: Vec<VarDecl> = names.iter().map(|n| VarDecl { name: n.clone(), ty: VariableType::IntegerRange(-4, 4) }).collect();
-    let vals: Vec<f64> = if r.chance(1, 2) { (0..3).map(|_| *r.pick(&[0.0, 1.0, 0.0, 1.0, 2.0, -1.0])).collect() } else { (0..3).map(|_| r.range(-4, 4) as f64).collect() };
+    let vals: Vec<f64> = if let Some((_, pq)) = fixed { vec![pq[0], pq[1], 1.0] } else if r.chance(1, 2) { (0..3).map(|_| *r.pick(&[0.0, 1.0, 0.0, 1.0, 2.0, -1.0])).collect() } else { (0..3).map(|_| r.range(-4, 4) as f64).collect() };
     let mut b = ModelBuilder::new();
     let mut handles = IndexMap::new();
     for d in &ds { handles.insert(d.name.clone(), b.add_var(d.name.clone(), d.ty)); }
@@ -215,8 +228,15 @@ fn eval_probe(r: &mut Rng) -> Option<Case> {
     let sol = b.solve_with(Auto).ok()?;
     let cfg = ModelCfg { max_vars: 3, depth: 3, logic: true, piecewise: true, unbounded: false, fractional: true, strict_cmp: false, hostile: false };
     // numeric and logic operators over ALL variables (truthiness of non-0/1 values included: eval_expr is total)
-    let connective = r.chance(1, 3);
-    let e = if connective {
+    let connective = fixed.is_some() || r.chance(1, 3);
+    let e = if let Some((kind, _)) = fixed {
+        let (p, q) = (Box::new(Exp::Variable("p".into())), Box::new(Exp::Variable("q".into())));
+        match kind {
+            0 => Exp::Iff(p, q), 1 => Exp::Implies(p, q), 2 => Exp::Xor(p, q), 3 => Exp::BinOp(BinOp::And, p, q), 4 => Exp::BinOp(BinOp::Or, p, q),
+            5 => Exp::BinOp(BinOp::Iff, p, q), 6 => Exp::BinOp(BinOp::Implies, p, q), 7 => Exp::BinOp(BinOp::Xor, p, q),
+            8 => Exp::Not(p), 9 => Exp::UnOp(UnOp::Neg, p), 10 => Exp::Iff(q, p), _ => Exp::Implies(q, p),
+        }
+    } else if connective {
         // one connective applied to variable handles directly (the METHOD / operator forms with a bare `Var` receiver), possibly
         // under one more operator; the values below include the rows of the truth table where the connectives differ
         let v = |r: &mut Rng| Box::new(Exp::Variable(r.pick(&names).clone()));
@@ -235,6 +255,7 @@ fn eval_probe(r: &mut Rng) -> Option<Case> {
     c.show = format!("solution.eval({}) at {:?}", e, vals);
     c.tags = vec!["eval-probe".into()];
     if connective { c.tags.push("eval-probe-connective".into()); }
+    if fixed.is_some() { c.tags.push("eval-probe-truth-table".into()); }
     c.nontrivial = true;
     Some(c)
 }
@@ -630,9 +651,11 @@ impl Hist {
             }
         }
     }
-    fn step(&mut self, r: &mut Rng) {
+    fn step(&mut self, r: &mut Rng) { let k = r.below(11); self.step_kind(r, k) }
+    /// 0-2 add_var, 3-4 add_vars, 5-7 with, 8 with_all, 9 maximize / minimize, 10 satisfy
+    fn step_kind(&mut self, r: &mut Rng, kind: usize) {
         let pool = ["x", "y", "z", "x_0", "x_1", "y_1", "w"];
-        match r.below(11) {
+        match kind {
             0..=2 => {
                 let name = r.pick(&pool).to_string();
                 let ty = hist_type(r, self.linear);
@@ -715,13 +738,24 @@ fn random_milp(r: &mut Rng) -> MILPValue {
     match r.below(3) { 0 => MILPValue::Bool(r.chance(1, 2)), 1 => MILPValue::Int(r.range(-4, 9) as i32), _ => MILPValue::Real(r.range(-20, 20) as f64 / 4.0) }
 }
 
-fn history_cases(r: &mut Rng) -> Vec<Case> {
-    let linear = r.chance(2, 5);
+fn history_cases(r: &mut Rng) -> Vec<Case> { history_cases_with(r, None) }
+
+/// `script = Some(k)`: a LINEAR history that ends with a fixed call pattern - objective then `satisfy` / `satisfy` then objective
+/// (the last call must win), `with` then `with_all` and `with_all` then `with` (appending, in call order, repeated names),
+/// two objectives in a row, an `add_vars` family after constraints
+fn history_cases_with(r: &mut Rng, script: Option<usize>) -> Vec<Case> {
+    let linear = script.is_some() || r.chance(2, 5);
     let mut h = Hist { b: ModelBuilder::new(), minted: vec![], ops: vec![], outs: vec![], tags: vec!["history".into()], cnames: vec![], linear, div_by_var: false, abs_cons: vec![], abs_obj: None };
     if linear { h.tag("linear-history"); }
     let span = if r.chance(1, 6) { 24 } else { 9 };
     let n = 2 + r.below(span);
+    if script.is_some() { h.step_kind(r, 0); h.step_kind(r, 3); }
     for _ in 0..n { h.step(r); }
+    if let Some(k) = script {
+        h.tag("scripted-history");
+        let tail: &[usize] = match k % 6 { 0 => &[9, 10], 1 => &[10, 9], 2 => &[5, 8, 8], 3 => &[8, 5, 8], 4 => &[9, 9, 5], _ => &[5, 9, 10, 8] };
+        for kind in tail { h.step_kind(r, *kind); }
+    }
     if h.ops.len() >= 12 { h.tag("long-history"); }
     let model = std::panic::catch_unwind(std::panic::AssertUnwindSafe(|| h.b.clone().into_model()));
     let model_sx = match &model { Ok(m) => sx_rmodel(m), Err(_) => { h.tag("index-panic"); "(index-panic)".to_string() } };
@@ -1062,26 +1096,59 @@ fn data_doors(r: &mut Rng) -> Case {
 // RELATIVE to the objective (large base values + small bonuses, a cardinality limit, pairwise conflicts: a fractional root
 // LP, so that an early incumbent is not optimal).
 
-fn gap_doors(r: &mut Rng) -> Case {
+const GAP_BLOCK: usize = 32;
+
+struct GapInst { family: usize, n: usize, values: Vec<f64>, k: usize, conflicts: Vec<(usize, usize)>, weights: Vec<i64>, wcap: i64 }
+
+fn gap_instance(r: &mut Rng, family: usize) -> GapInst {
+    // families (rotating): 0 = the five-item shape (cardinality 3, conflict triangle 0-2-4), 1 = 6-8 items, triangle + pairs,
+    // 2 = a weight row instead of the cardinality row (knapsack), 3 = two triangles
+    let n = match family { 0 => 5, 1 => 6 + r.below(3), 2 => 5 + r.below(3), _ => 7 + r.below(2) };
+    let base = *r.pick(&[1000000.0, 2000000.0, 5000000.0, 10000000.0]);
+    // small DISTINCT bonuses
+    let mut bonus: Vec<i64> = vec![];
+    while bonus.len() < n { let b = r.range(1, 40); if !bonus.contains(&b) { bonus.push(b); } }
+    let values: Vec<f64> = bonus.iter().map(|b| base + *b as f64).collect();
+    let k = match family { 0 => 3, _ => 2 + r.below(n - 3) };
+    let mut conflicts: Vec<(usize, usize)> = vec![(0, 2), (0, 4), (2, 4)];
+    if family == 3 { conflicts.extend([(1, 3), (1, 5), (3, 5)]); }
+    if family != 0 { for _ in 0..r.below(3) { let a = r.below(n); let b = r.below(n); if a != b && !conflicts.contains(&(a.min(b), a.max(b))) { conflicts.push((a.min(b), a.max(b))); } } }
+    let weights: Vec<i64> = (0..n).map(|_| r.range(2, 5)).collect();
+    let wcap = weights.iter().sum::<i64>() / 2;
+    GapInst { family, n, values, k, conflicts, weights, wcap }
+}
+
+fn gap_build(g: &GapInst) -> (ModelBuilder, Vec<Var>) {
+    let mut b = ModelBuilder::new();
+    let x = b.add_vars("x", g.n, VariableType::Boolean);
+    let mut b = b.maximize(rooc::builder::sum(x.iter().zip(&g.values).map(|(xi, v)| *v * *xi)));
+    if g.family == 2 { b = b.with(BuilderConstraint::new(rooc::builder::sum(x.iter().zip(&g.weights).map(|(v, w)| (*w as f64) * *v)), Comparison::LessOrEqual, Expr::from(g.wcap as f64), "card".into())); }
+    else { b = b.with(BuilderConstraint::new(rooc::builder::sum(x.iter().map(|v| Expr::from(*v))), Comparison::LessOrEqual, Expr::from(g.k as f64), "card".into())); }
+    for (a, c) in &g.conflicts { b = b.with(BuilderConstraint::new(x[*a] + x[*c], Comparison::LessOrEqual, Expr::from(1.0), String::new())); }
+    (b, x)
+}
+
+fn gap_doors(r: &mut Rng, k_index: usize) -> Case {
     use rooc::Microlp;
-    let n = 4 + r.below(4);
-    let base = *r.pick(&[1000000.0, 250000.0, 5000000.0]);
-    let values: Vec<f64> = (0..n).map(|_| base + r.range(1, 30) as f64).collect();
-    let k = 2 + r.below(n - 2);
-    let mut conflicts: Vec<(usize, usize)> = vec![];
-    if n >= 5 && r.chance(2, 3) { conflicts.extend([(0, 2), (0, 4), (2, 4)]); }
-    for _ in 0..1 + r.below(3) { let a = r.below(n); let b = r.below(n); if a != b && !conflicts.contains(&(a.min(b), a.max(b))) { conflicts.push((a.min(b), a.max(b))); } }
-    let build = || -> (ModelBuilder, Vec<Var>) {
-        let mut b = ModelBuilder::new();
-        let x = b.add_vars("x", n, VariableType::Boolean);
-        let mut b = b.maximize(rooc::builder::sum(x.iter().zip(&values).map(|(xi, v)| *v * *xi)));
-        b = b.with(BuilderConstraint::new(rooc::builder::sum(x.iter().map(|v| Expr::from(*v))), Comparison::LessOrEqual, Expr::from(k as f64), "card".into()));
-        for (a, c) in &conflicts { b = b.with(BuilderConstraint::new(x[*a] + x[*c], Comparison::LessOrEqual, Expr::from(1.0), String::new())); }
-        (b, x)
-    };
+    // GAP-SENSITIVE instances by construction: a candidate is kept only if microlp with an EXPLICIT relative gap of 1e-4
+    // (`with_mip_gap(1e-4)`, a legitimate setting on the unchanged code) stops at an incumbent that is NOT the optimum the exact
+    // search proves - i.e. the 1e-4 gap provably admits a non-optimal solution that microlp's search order returns first.
+    // A wrapper that silently applies such a gap by default is then caught on every one of them.
+    let family = k_index % 4;
+    let solve = |g: &GapInst, gap: f64| -> Option<f64> { std::panic::catch_unwind(std::panic::AssertUnwindSafe(|| gap_build(g).0.solve_with(Microlp::new().with_mip_gap(gap)).ok().map(|s| s.value()))).ok().flatten() };
+    let mut g = gap_instance(r, family);
+    let mut sensitive = false;
+    for _ in 0..80 {
+        if let (Some(a), Some(b)) = (solve(&g, 1e-4), solve(&g, 0.0)) { if (a - b).abs() > 0.5 { sensitive = true; break; } }
+        let f2 = if family == 2 && r.chance(1, 2) { 0 } else { family };
+        g = gap_instance(r, f2);
+    }
+    let (family, n, k) = (g.family, g.n, g.k);
+    let (values, conflicts, weights, wcap) = (g.values.clone(), g.conflicts.clone(), g.weights.clone(), g.wcap);
+    let build = || gap_build(&g);
     let text = format!("max {}\ns.t.\n    card: {} <= {}\n{}define\n    {} as Boolean",
         (0..n).map(|i| format!("{} * x_{}", values[i] as i64, i)).collect::<Vec<_>>().join(" + "),
-        (0..n).map(|i| format!("x_{}", i)).collect::<Vec<_>>().join(" + "), k,
+        if family == 2 { (0..n).map(|i| format!("{} * x_{}", weights[i], i)).collect::<Vec<_>>().join(" + ") } else { (0..n).map(|i| format!("x_{}", i)).collect::<Vec<_>>().join(" + ") }, if family == 2 { wcap as usize } else { k },
         conflicts.iter().map(|(a, c)| format!("    x_{} + x_{} <= 1\n", a, c)).collect::<String>(),
         (0..n).map(|i| format!("x_{}", i)).collect::<Vec<_>>().join(", "));
     let run = |f: &mut dyn FnMut() -> Result<f64, String>| -> Result<f64, String> { std::panic::catch_unwind(std::panic::AssertUnwindSafe(|| f())).unwrap_or(Err("(panic)".into())) };
@@ -1098,7 +1165,8 @@ fn gap_doors(r: &mut Rng) -> Case {
     let mut c = Case::default();
     c.show = text.replace('\n', " ; ");
     c.imp = format!("(gap-doors (microlp-default {:?}) (microlp-gap0 {:?}) (auto {:?}) (text-milp {:?}))", o_default, o_exact, o_auto, o_text);
-    c.tags = vec!["gap-doors".into()];
+    c.tags = vec!["gap-doors".into(), format!("gap-family-{}", family)];
+    if sensitive { c.tags.push("gap-sensitive".into()); }
     c.nontrivial = o_default.is_ok();
     let all = [&o_default, &o_exact, &o_auto, &o_text];
     match &o_text {
